@@ -1802,3 +1802,16 @@ package raft
 //@   localonly
 //@   ensures  memory_follows_the_durable_bootstrap: result == nil ==> r.currentTerm == 1 && r.lastLogIndex == 1 && r.lastLogTerm == 1 && r.logs.has[1]
 //@   at call BootstrapCluster#1 assert only_a_voter_bootstraps: exists k int :: 0 <= k && k < len(configuration.Servers) && configuration.Servers[k].ID == r.localID && configuration.Servers[k].Suffrage == Voter
+
+// ---------------------------------------------------------------------------
+// C15: Create hands out a sink that records exactly the snapshot it was asked for; nothing is renamed or removed
+// (that the directory carries the temporary suffix is not claimed: filepath.Join is not modelled)
+//@ func (f *FileSnapshotStore) Create
+//@   requires nonnil: f != nil && f.logger != nil
+//@   localonly
+//@   ensures  only_version_one: version != 1 ==> result1 != nil
+//@   ensures  sink_or_error: (result1 == nil) == typeis(result0, *FileSnapshotSink)
+//@   ensures  sink_records_the_requested_snapshot: result1 == nil ==> cast(result0, *FileSnapshotSink).meta.Index == index && cast(result0, *FileSnapshotSink).meta.Term == term &&
+//@              cast(result0, *FileSnapshotSink).meta.ConfigurationIndex == configurationIndex && cast(result0, *FileSnapshotSink).meta.Version == version &&
+//@              cast(result0, *FileSnapshotSink).store == f && cast(result0, *FileSnapshotSink).parentDir == f.path && cast(result0, *FileSnapshotSink).noSync == f.noSync && !cast(result0, *FileSnapshotSink).closed
+//@   ensures  nothing_visible_yet: renames == old(renames) && removals == old(removals)
